@@ -237,6 +237,38 @@ impl<M: Math, A: MassMatrixAdaptStrategy<M>> AdaptStrategy<M> for GlobalStrategy
     }
 }
 
+/// Snapshot of the window bookkeeping (verification hook).
+#[cfg(nuts_rs_verif)]
+#[derive(Debug, Clone, Copy, PartialEq, Eq)]
+pub struct VerifWindowState {
+    pub foreground_count: u64,
+    pub background_count: u64,
+    pub current_window_size: u64,
+    pub early_end: u64,
+    pub final_step_size_window: u64,
+    pub num_tune: u64,
+    pub last_update: u64,
+    pub has_initial_mass_matrix: bool,
+    pub tuning: bool,
+}
+
+#[cfg(nuts_rs_verif)]
+impl<M: Math, A: MassMatrixAdaptStrategy<M>> GlobalStrategy<M, A> {
+    pub fn verif_window_state(&self) -> VerifWindowState {
+        VerifWindowState {
+            foreground_count: self.mass_matrix_adapt.current_count(),
+            background_count: self.mass_matrix_adapt.background_count(),
+            current_window_size: self.current_window_size,
+            early_end: self.early_end,
+            final_step_size_window: self.final_step_size_window,
+            num_tune: self.num_tune,
+            last_update: self.last_update,
+            has_initial_mass_matrix: self.has_initial_mass_matrix,
+            tuning: self.tuning,
+        }
+    }
+}
+
 #[derive(Debug, Storable)]
 pub struct GlobalStrategyStats<P: HasDims, S: Storable<P>, M: Storable<P>> {
     #[storable(flatten)]
